@@ -43,7 +43,10 @@ def guard_of(o, c, E):
 
 
 class LoopSpec:
-    def __init__(self, inv, decreases=None, havoc=None, kinds=None, on_exit=None, frozen=()):
+    def __init__(self, inv, decreases=None, havoc=None, kinds=None, on_exit=None, frozen=(),
+                 ghost_step=None):
+        self.ghost_step = ghost_step  # fn(c, fr): ghost assignments at the end of every iteration
+                                      # (may only touch c.ghost, never program state)
         self.on_exit = on_exit      # fn(c, fr): called when the loop is left (break / condition)
         self.frozen = tuple(frozen)  # locals assigned only on paths that leave the loop: not
                                      # havocked; 'unchanged at the end of an iteration' is an obligation
